@@ -29,7 +29,7 @@ P = {
                  "C16_header_names_active_key", "C16_token_verifies_against_published", "C16_jwks_public_only",
                  "C16_run_meets_spec", "C16_run_meets_property", "C16_run_meets_spec_pinned", "C16_F1_pinned_refuted", "C16_F2_pinned_refuted", "C16_variant_overlays_catalogue", "C16_variant_token", "C16_nonvacuous",
                  "C16_consistent_pair", "C16_sign_sees_one_load", "C16_torn_skeleton_refuted",
-                 "C16_conc_token_of_own_section", "C16_conc_hit_same_state", "C16_conc_invariant",
+                 "C16_conc_token_of_own_section", "C16_conc_hit_same_state", "C16_conc_hit_within_window", "C16_conc_invariant",
                  "C16_conc_rejected_reloads_unobservable", "C16_conc_sequential_is_exec", "C16_conc_nonvacuous",
                  "C16_conc_F2_pinned_refuted", "C16_conc_return_after_reload"],
     "streams": [{
